@@ -158,7 +158,7 @@ def gen_scenario(seed, algo, nticks=None, contended=None, tps_choices=(1, 2, 4, 
     npools = 2 if algo == "priority-pool" else rng.choice([1, 1, 2, 3, 4])
     cfg = {"tps": tps, "multi": True if (algo == "priority-pool" and pp_multi_only) else (False if algo in ("template", "overbook") and rng.random() < 0.5 else rng.random() < 0.6),
            "over": algo == "overbook", "npools": npools, "cpus": rng.choice([1, 2, 4, 8, 16, 64]),
-           "ram": fstr(rng.choice([F(1, 2), 2, 8, 32, 64, 100, 256]))}
+           "ram": fstr(rng.choice([F(1, 2), 2, F(5, 2), 8, F(33, 2), 32, 64, 100, 256]))}
     if algo == "overbook":
         cfg["multi"] = rng.random() < 0.5
     nticks = nticks or rng.choice([60, 120, 200])
